@@ -1,18 +1,27 @@
 """C20 - with robots enabled, disallowed URLs are never requested.
 
-Proof: coq/Props/C20.v over coq/Model/Robots.v (parser, matcher, pool, checker status
-table, gate LTS for every interleaving, nofollow step).
+Proof: coq/Props/C20.v over coq/Model/Robots.v (parser, matcher, pool, per-origin fetch lock, checker
+status table, gate LTS for every interleaving incl. redirect hops, nofollow step).
 
 Ties, all on every run:
- (a) the REAL RobotsTxtPool.load_robots_txt / can_fetch (= RobotExclusionRulesParser.parse /
-     is_allowed exactly as wpull calls them) vs the Coq model (vm_compute) on generated robots.txt
-     files x user agents x URLs: parsed rulesets AND verdicts compared;
+ (a)  the REAL RobotsTxtPool.load_robots_txt / can_fetch (= RobotExclusionRulesParser.parse / is_allowed
+      exactly as wpull calls them) vs the Coq model (vm_compute) on generated robots.txt files x user agents
+      x URLs: parsed rulesets AND verdicts compared; clean files also against an independent Python matcher;
  (a') the real RobotsTxtPool (key = scheme/host/port), the real RobotsTxtChecker.can_fetch over the real
-     WebClient/WebSession/RedirectTracker with a scripted HTTP client (status table, redirects, errors),
-     the real HTMLScraper (nofollow) vs the model;
- (b) end-to-end crawls of the whole application (harness/fakes/crawl.py), several origins, concurrency
-     1-4: the request log is checked against the property predicate (independent Python matcher) and
-     against the fetch set predicted from the model's verdicts (evaluated in Coq).
+      WebClient/WebSession/RedirectTracker with a scripted HTTP client (status table, redirects, errors),
+      the real HTMLScraper (nofollow) vs the model;
+ (a'') several asyncio tasks sharing ONE real RobotsTxtChecker, the scripted answers taking scripted numbers of
+      event-loop turns: the observed order of events is turned into labels and replayed through the LTS step
+      function in Coq (run_labels): every label must be accepted and the model must emit exactly the observed
+      events (acquisitions, stores with their rule sets, verdicts);
+ (b)  end-to-end crawls of the whole application (harness/fakes/crawl.py; 1-4 REAL pipeline workers via
+      harness/fakes/c20_hooks.set_concurrency, slow robots.txt answers, redirects to disallowed URLs on the same
+      and on other origins, robots.txt redirected to files on crawled origins, cookies, nofollow pages, 5xx with
+      and without body): (b1) the server's request log and the URL table rows are checked against the property
+      predicate (independent Python matcher) and the fetch set predicted from the verdicts (which are checked
+      against the model in Coq); (b2) the application is instrumented from outside (c20_hooks.instrument: wrappers
+      that only log) and the whole run - every pick, filter verdict, lock/acquisition, robots.txt request and
+      answer, store, item request, redirect, skip - is replayed through the LTS in Coq as in (a'').
 """
 import json
 import os
@@ -711,8 +720,11 @@ def gen_conc_cases(r, n):
                 script[u] = [t({'status': r.choice([301, 302, 307]), 'location': '/rb2.txt'})]
                 script[base + '/rb2.txt'] = [t(ok)]
             elif kind == 'redirect-x':
-                script[u] = [t({'status': 302, 'location': 'http://hx/rb-%d.txt' % len(script)})]
-                script['http://hx/rb-%d.txt' % (len(script) - 1)] = [t(ok)]
+                others = [b for b, _ in origins if b != base and b.startswith('http://')]
+                hx = r.choice(others) if others and r.randrange(3) else 'http://hx'
+                loc = '%s/rb-%d.txt' % (hx, len(script))
+                script[u] = [t({'status': 302, 'location': loc})]
+                script[loc] = [t(ok)]
             elif kind == 'protocol':
                 script[u] = [t({'error': 'protocol'})]
             elif kind == 'network-then-200':
@@ -866,7 +878,7 @@ def conc_property(case, res):
 HOSTS = ['h1', 'h2', 'h3']
 PAGE_PATHS = ['/', '/a', '/a/b', '/ab', '/secret', '/secret/x', '/private/y.html', '/img/a.png', '/img/a.gif', '/x.php', '/x.php?y',
               '/d1/z', '/x', '/xy', '/pub/x', '/other', '/deep/1', '/deep/2']
-E2E_RULES = ['/secret', '/private/', '/img/*.png', '/*.php$', '/a', '/a/b', '/d1/', '/x$', '/pub', '/deep/1', '/', '']
+E2E_RULES = ['/secret', '/private/', '/img/*.png', '/*.php$', '/a', '/a/b', '/d1/', '/x$', '/pub', '/deep/1', '/', '', '/x.php?', '/*?y']
 E2E_UAS = [None, None, 'googlebot', 'OtherBot/1.0']
 
 
@@ -911,19 +923,22 @@ def gen_site(r, idx):
             body = ''
             pages['/robots.txt'] = dict({'body': '', 'ctype': 'text/plain'}, **slow)
         elif kind in ('404', '403', '204', '503', '500'):
-            pages['/robots.txt'] = dict({'status': int(kind), 'body': '' if kind == '204' else 'User-agent: *\nDisallow: /\n', 'ctype': 'text/plain'}, **slow)
+            empty = kind == '204' or (kind in ('503', '500') and r.randrange(2) == 0)     # 5xx answers often carry no body at all
+            pages['/robots.txt'] = dict({'status': int(kind), 'body': '' if empty else 'User-agent: *\nDisallow: /\n', 'ctype': 'text/plain'}, **slow)
         elif kind == 'redirect':
             pages['/robots.txt'] = {'status': r.choice([301, 302, 307]), 'location': '/rb-moved.txt', 'body': ''}
             pages['/rb-moved.txt'] = dict({'body': body, 'ctype': 'text/plain'}, **slow)
             chain = ['/robots.txt', '/rb-moved.txt']
         elif kind == 'redirect-x':
-            pages['/robots.txt'] = {'status': 302, 'location': 'http://hx:{PORT}/rb-%s.txt' % h, 'body': ''}
-            site.setdefault('hx', {})['/rb-%s.txt' % h] = dict({'body': body, 'ctype': 'text/plain'}, **slow)
-            chain = ['/robots.txt', ('hx', '/rb-%s.txt' % h)]
+            others = [x for x in hosts if x != h]
+            hx = r.choice(others) if others and r.randrange(3) else 'hx'
+            pages['/robots.txt'] = {'status': 302, 'location': 'http://%s:{PORT}/rb-%s.txt' % (hx, h), 'body': ''}
+            site.setdefault(hx, {})['/rb-%s.txt' % h] = dict({'body': body, 'ctype': 'text/plain'}, **slow)
+            chain = ['/robots.txt', (hx, '/rb-%s.txt' % h)]
         elif kind == 'loop':
             pages['/robots.txt'] = {'status': 302, 'location': '/robots.txt', 'body': ''}
             chain = ['/robots.txt'] * 21
-        site[h] = pages
+        site.setdefault(h, {}).update(pages)
         meta['hosts'][h] = {'kind': kind, 'robots_body': body, 'chain': chain, 'pages': {}}
     # content pages
     for h in hosts:
@@ -957,6 +972,12 @@ def gen_site(r, idx):
                 site[th].setdefault(tp, {'body': 'target'})
                 meta['hosts'][th]['pages'].setdefault(tp, {'links': [], 'inline': [], 'nofollow': False})
                 links.append((h, g))
+            # page requisites under paths robots.txt may disallow (they are robots-checked like any other URL)
+            while r.randrange(2) == 0 and len(inline) < 3:
+                ip = r.choice(['/secret/i%d.png', '/private/i%d.gif', '/img/i%d.png', '/pub/i%d.png', '/a/i%d.gif', '/open/i%d.png']) % r.randrange(3)
+                site[h].setdefault(ip, {'body': 'img', 'ctype': 'image/png'})
+                meta['hosts'][h]['pages'].setdefault(ip, {'links': [], 'inline': [], 'nofollow': False})
+                inline.append((h, ip))
             nf = r.randrange(6) == 0
             if nf:
                 # links of a nofollow page point to places nothing else links to
@@ -1134,7 +1155,8 @@ def e2e_predicate(spec, res):
     actual = set(q for q in log if q not in acq and q[0] in meta['hosts'])
     for q in sorted(pred - actual):
         hm = meta['hosts'][q[0]]
-        if hm['kind'] in ('404', '403', '204', 'loop', '200-empty'):
+        if hm['kind'] in ('404', '403', '204', 'loop', '200-empty') and not any(a[0] == q[0] for a in actual):
+            # nothing of an origin whose robots.txt is missing was fetched at all
             viol.append({'why': 'missing-robots-not-allowing', 'case': case({'request': list(q)})})
         else:
             dis.append({'tie': 'e2e', 'what': 'predicted fetch missing from the log', 'request': list(q), 'idx': meta['idx'],
